@@ -123,7 +123,21 @@ func checkC17(c *ctx) {
 		runs := c.pick(4, 20)
 		var ref map[string]string
 		for r := 0; r < runs; r++ {
-			removeOutputs(dir, pkgs)
+			// run 1 finds the outputs of run 0 in place; the last run finds a
+			// longer, different file at every output path; the others start
+			// from a tree without outputs
+			switch {
+			case r == 1:
+			case r == runs-1 && r >= 2:
+				for rel := range ref {
+					if f, err := os.OpenFile(filepath.Join(dir, rel), os.O_APPEND|os.O_WRONLY, 0); err == nil {
+						f.WriteString("\n// tail of an earlier, longer output\nfunc staleTail() { staleTail() }\n" + strings.Repeat("// padding padding padding padding\n", 40))
+						f.Close()
+					}
+				}
+			default:
+				removeOutputs(dir, pkgs)
+			}
 			for _, sub := range []string{"g", "s", "h"} {
 				runTool(dir, cff, "-genmode", mode, "-quiet", "./"+sub+"/...")
 			}
@@ -262,7 +276,7 @@ func checkC17(c *ctx) {
 		"evaluations":         evals,
 		"distinct_nontrivial": len(distinct),
 		"rule": "Engine T: corpus of accepted packages (Engine G programs, static multi-file packages with several directives per file, import-collision hazards); cff run R times in fresh processes per mode (base, source-map) and every output compared byte for byte with the first run; " +
-			"then a sample of packages re-run alone (the first runs process many packages per invocation) and compared; then each static package re-run with -file selections and each output compared with the whole-package output; then test files (in-package and external) added to corpus packages and p_gen.go compared again; no CFF_MAGIC_TOKEN may remain. distinct = distinct output files compared; all non-trivial (each holds at least one expanded directive)",
+			"run 1 over a tree that holds run 0's outputs, the last run over a tree with a longer stale file at every output path; then a sample of packages re-run alone (the first runs process many packages per invocation) and compared; then each static package re-run with -file selections and each output compared with the whole-package output; then test files (in-package and external) added to corpus packages and p_gen.go compared again; no CFF_MAGIC_TOKEN may remain. distinct = distinct output files compared; all non-trivial (each holds at least one expanded directive)",
 		"samples":          samples,
 		"byte_comparisons": compared,
 	}
